@@ -576,6 +576,7 @@ func (ck *Check) master(tier string, seed int64, evidence, replays, known string
 		}
 	}
 	violations := 0
+	unreproduced := 0
 	printed := 0
 	knownSeen := map[string]bool{}
 	reported := map[string]bool{}
@@ -643,7 +644,9 @@ func (ck *Check) master(tier string, seed int64, evidence, replays, known string
 					continue
 				}
 				fmt.Fprintf(os.Stderr, "INFRASTRUCTURE: failure %s/%d key=%s reproduced only %d/%d times; not reported as a violation\n", f.Domain, f.Index, f.Key, rep, want)
-				return 2
+				unreproduced++
+				violations--
+				continue
 			}
 		}
 		fmt.Printf("VIOLATION property=%s replay=%s\n", ck.Property, path)
@@ -726,8 +729,11 @@ func (ck *Check) master(tier string, seed int64, evidence, replays, known string
 			fmt.Printf("    warning: %s\n", w)
 		}
 	}
-	if violations > 0 {
+	if printed > 0 || violations > 0 {
 		return 1
+	}
+	if unreproduced > 0 {
+		return 2 // failures were observed but none of them could be reproduced: not believed, not silent either
 	}
 	return 0
 }
